@@ -278,7 +278,9 @@ class Scan(ArrayOpSpec):
     props = ("C01", "C12", "C17")
 
     def configs(self, tier):
-        return [dict(ndim=nd, axis=ax) for nd in ranks(tier)[:2] for ax in range(nd)]
+        if tier == "quick":
+            return [dict(ndim=1, axis=0)]
+        return [dict(ndim=nd, axis=ax) for nd in (1, 2) for ax in range(nd)]
 
     def install(self, c):
         S = gb.install(c)
